@@ -19,6 +19,8 @@ template <size_t K, size_t MG> struct IOM {
     static std::string show(const E& x) { Integer z(x.Value); std::ostringstream o; o << z; return o.str(); }
 };
 
+template <size_t K> static void call_to_mg(rmint<K, MG_ACTIVE>& a, const rmint<K, MG_ACTIVE>& b) { to_mg(a, b); }
+template <size_t K> static void call_to_mg(rmint<K, MG_INACTIVE>& a, const rmint<K, MG_INACTIVE>& b) { copy(a, b); }
 template <size_t K, size_t MG> struct MOp {
     typedef rmint<K, MG> E;
     std::string op; const Args& x;
@@ -84,6 +86,7 @@ template <size_t K, size_t MG> struct MOp {
         else if (op == "addmul") addmul(P(0), P(1), P(2));
         else if (op == "copy") copy(P(0), P(1));
         else if (op == "reduction") reduction(P(0), P(1));
+        else if (op == "to_mg") call_to_mg(P(0), P(1));
         else if (op == "square_root") square_root(P(0), P(1));
         else if (op == "op+=") P(0) += P(1);
         else if (op == "op-=") P(0) -= P(1);
@@ -184,6 +187,7 @@ template <size_t K> struct IOp {
         else if (op == "div_q.w") div_q(P(0), P(1), (int64_t) s);
         else if (op == "div_r") div_r(P(0), P(1), P(2));
         else if (op == "mod_nin") mod_n(P(0), P(1));
+        else if (op == "mod_n") mod_n(P(0), P(1), P(2));
         else if (op == "inv_mod") inv_mod(P(0), P(1), P(2));
         else if (op == "op+=") P(0) += P(1);
         else if (op == "op-=") P(0) -= P(1);
